@@ -238,6 +238,19 @@ def check(rep):
         rep.case(('k', F, n), n > 0)
         rep.count('kernel_F_sign', 'F<=8' if F <= 8 else 'F>8')
 
+    # the same framing next to other writers: a few scheduled runs of C01's scenario (2..5 writer threads, partial sends,
+    # EAGAIN, time-outs) judged by the reference broker's own frame parser - every Basic.Publish followed by its header and
+    # exactly the announced body bytes, nothing malformed
+    from harness.props import c01
+    from harness import par
+    cjobs = [(c01.make_scenario(rng), rng.randrange(1 << 30), None) for _ in range(40 if not thorough else 600)]
+    for (sc, seed, _), r in zip(cjobs, par.pmap(c01.run_one, cjobs)):
+        rep.case(('concurrent', tuple(r['choices'][:200])), r['preemptions'] > 0, sample={'writers': sc['writers'], 'frame_max': sc['frame_max']})
+        rep.count('concurrent_writers', len(sc['writers']))
+        for v in r['broker_violations'][:1]:
+            rep.violation('C04/wire-frames-damaged-next-to-other-writers', 'reference broker: %s' % v,
+                          {'kind': 'concurrent', 'scenario': sc, 'seed': seed, 'choices': r['choices']})
+
     if rep.build.driver_ok:
         got = common.run_driver(lines)
         rep.corr_cases = len(lines)
@@ -250,6 +263,12 @@ def check(rep):
 
 def replay(data):
     r = data['replay']
+    if r.get('kind') == 'concurrent':
+        from harness.props import c01
+        out = c01.run_one((r['scenario'], r['seed'], r.get('choices')))
+        print('reference broker:', out['broker_violations'][:2])
+        print('VIOLATION reproduced' if out['broker_violations'] else 'property holds on this input')
+        return 1 if out['broker_violations'] else 0
     rc = RecConn(r['srv_frame_max'])
     ch = rc.channel(1)
     body = bytes.fromhex(r['body_hex']) if r.get('body_hex') is not None else bytes([r['body_byte'] or 0]) * r['body_len']
